@@ -16,8 +16,15 @@ from props import c04
 
 THEOREMS = ["C11_restart_converges", "C11_valid_means_complete_and_checksummed", "C11_chunk_ok_meaning",
             "C11_valid_chunks_not_requested_again", "C11_written_chunks_not_requested_again",
-            "C11_interrupted_writes_leave_a_target"]
+            "C11_interrupted_writes_leave_a_target",
+            # byte level: the composed run of C04 restarted on any byte string
+            "C11_byte_level_restart_converges", "C11_byte_level_no_refetch", "C11_byte_level_partial_never_trusted"]
 ASSUMPTIONS = [
+    "byte level (C11_byte_level_*): restart = the composed byte-level run of C04 (BF.byte_update, assembled from the component models "
+    "of C13/C09/C08/C10/C05) on ANY byte string at the target path with any flags and context state, hence on whatever one or more "
+    "interruptions leave; hypotheses as C04_byte_level_reconstructs_B (valid B accepted by the header reader, old file without cut "
+    "extents, server answering with the requested extents of B, >= 1 range per request); reachable crash states are not "
+    "characterised separately (all byte strings is the stronger quantification)",
     "crash states are over-approximated: the theorems quantify over every target (any bytes in every extent and in the header region, "
     "truncated anywhere, over-long); that a kill after any number of written bytes leaves such a state follows from POSIX write "
     "semantics (bytes of completed / partial write calls are in the file, nothing else changes) and is exercised by the kill runs",
